@@ -20,6 +20,7 @@ TABLE = {
             ('OpyVerif.Generated.Skeletons', 'Opy.Gen', r'skel_\w+_good'),
             ('OpyVerif.Proofs.C18real', 'Opy', r'index_draw_range')],
     'C04': [('OpyVerif.Proofs.C04', 'Opy', r'dump|lookup_appendAttr'),
+            ('OpyVerif.Generated.Ops', 'Opy.Gen', r'dumpSkips_spec|dump_guard_known|parseRules_spec'),
             ('OpyVerif.Proofs.C19', 'Opy', r'dump_series'),
             ('OpyVerif.Generated.Constants', 'Opy.Gen', r'historyKeys_eq'),
             ('OpyVerif.Generated.Skeletons', 'Opy.Gen', r'skel_\w+_good')],
@@ -35,6 +36,8 @@ TABLE = {
             ('OpyVerif.Generated.Constants', 'Opy.Gen', r'nArgs_')],
     'C09': [('OpyVerif.Proofs.C09', 'Opy.PNode', None), ('OpyVerif.Proofs.C09repro', 'Opy.PNode', None)],
     'C10': [('OpyVerif.Proofs.C10', 'Opy', None), ('OpyVerif.Proofs.C10real', 'Opy', None),
+            ('OpyVerif.Proofs.OpTable', 'Opy', None),
+            ('OpyVerif.Generated.Ops', 'Opy.Gen', r'opTable_eq|terminal_returns_value'),
             ('OpyVerif.Generated.Constants', 'Opy.Gen', r'nArgs_|epsilon_pos')],
     'C11': [('OpyVerif.Proofs.C11', 'Opy.PNode', None)],
     'C12': [('OpyVerif.Proofs.C12', 'Opy', None),
